@@ -225,13 +225,18 @@ def features(x):
     return f
 
 
-def none_timed_nested(b, top=True):
-    """A bundle list with a nested bundle element whose time is None."""
-    if not isinstance(b, list) or not b or M.is_msg_list(b):
+def none_timed_nested(x):
+    """x (message or bundle list) contains, at any depth, a bundle one of
+    whose elements is a bundle with time None."""
+    if not isinstance(x, list) or not x:
         return False
-    for e in b[1:]:
-        if M.is_bundle_elem(e):
-            if e[0] is None or none_timed_nested(e, False):
+    if M.is_msg_list(x):
+        return any(none_timed_nested(a) for a in x[1:])
+    if M.is_bundle_elem(x):
+        for e in x[1:]:
+            if M.is_bundle_elem(e) and e[0] is None:
+                return True
+            if none_timed_nested(e):
                 return True
     return False
 
@@ -625,6 +630,10 @@ template = st.one_of(
               st.integers(1, 3)).map(lambda p: ['blob', p[0] + p[1]]),
     st.tuples(st.sampled_from([0, 0.5, 0.5, 1]), st.integers(0, 6)).map(
         lambda p: ['bndl', p[0], p[1]]),
+    st.tuples(st.sampled_from([0, 0, 0.5]), st.integers(1, 40)).map(
+        lambda p: ['bndl', p[0], p[1]]),
+    st.tuples(st.sampled_from([0, 1]), st.integers(0, 3)).map(
+        lambda p: ['bndl', p[0], p[1]]),
     st.just(['compl']),
 )
 
@@ -988,8 +997,7 @@ def classify_known(stage, case, viol):
             if exc in ('TypeError', 'IndexError') and (
                     f['bundle_arg'] or f['empty_list']):
                 return 'size_list_arg_raises'
-            if exc == 'ValueError' and stage == 'bundle' \
-                    and none_timed_nested(x):
+            if exc == 'ValueError' and none_timed_nested(x):
                 return 'size_none_time_raises'
             return None
         if kind == 'unrepresentable_accepted:nul_in_str' and f['nul']:
